@@ -98,10 +98,12 @@ fn match_path_segments(segments: &[&str], old_segments: &[PathSegment]) -> Optio
 }
 
 fn get_locale_from_path<L: Locale>(path: &str, base_path: &str) -> Option<L> {
-    let base_path = base_path.trim_start_matches('/');
+    let base_path = base_path.trim_matches('/');
     let stripped_path = path
         .trim_start_matches('/')
-        .strip_prefix(base_path)?
+        .strip_prefix(base_path)
+        // the base path is made of whole segments too, `/appfr` is not `fr` under the base path `app`.
+        .filter(|rest| base_path.is_empty() || rest.is_empty() || rest.starts_with('/'))?
         .trim_start_matches('/');
     // the locale must be the whole first segment, `/english` is not the locale `en`.
     let first_segment = stripped_path.split('/').next()?;
@@ -634,7 +636,10 @@ where
                     // but the prefix is the locale only when it is the whole first segment.
                     .filter(|partial_path_match| {
                         let remaining = partial_path_match.remaining();
-                        remaining.is_empty() || remaining.starts_with('/')
+                        // (and on the left: a path that does not start with `/` is the tail of a segment a parent
+                        // route matched in part, `/appfr` under the parent `app`)
+                        path.starts_with('/')
+                            && (remaining.is_empty() || remaining.starts_with('/'))
                     })
                     .and_then(|partial_path_match| {
                         let remaining = partial_path_match.remaining();
